@@ -13,6 +13,7 @@
 EXTENDS SignerAuthProps
 
 CONSTANTS MaxSigs,      \* signatures in a file (<= 4)
+          MaxSteps,     \* signapp invocations on the same -o path (<= 3)
           Tools         \* subset of {"none", "key", "eth", "manual_ok", "manual_bad", "manual_spell"}
 
 HL == 2
@@ -169,15 +170,16 @@ SysDigest(m)   == K256(SysWrap(m))                          \* keccak_256
 
 ---------------------------------------------------------------------------
 VARIABLES pc, env, hash, iter, sigs,     \* env: record of Env choices (for generation)
+          fx,                            \* the authorization file at -o exists (hash, iter, sigs = its content)
           obs, verdict, hist
-vars == <<pc, env, hash, iter, sigs, obs, verdict, hist>>
+vars == <<pc, env, hash, iter, sigs, fx, obs, verdict, hist>>
 
 Env0 == [hcls |-> "?", icls |-> "?", m |-> 0, mut |-> "none", at |-> 0, kind |-> "?", tool |-> "?",
-         cur |-> "?", k |-> 0]
+         steps |-> <<>>, cur |-> "?", k |-> 0]
 NoHash == [cls |-> "?", kind |-> "other", s |-> <<>>]
 NoIter == It("?", "none", 0, <<>>)
 
-Init == /\ pc = "build" /\ env = Env0 /\ hash = NoHash /\ iter = NoIter /\ sigs = <<>>
+Init == /\ pc = "build" /\ env = Env0 /\ hash = NoHash /\ iter = NoIter /\ sigs = <<>> /\ fx = FALSE
         /\ obs = InitObs /\ verdict = "" /\ hist = <<>>
 
 Emit(e) == /\ obs' = Observe(obs, e, HL)
@@ -208,7 +210,7 @@ DoBuild(h, it, m, mut, p, kind) ==
                               ELSE IF mut = "sigspell" /\ i = p THEN SpellSig(26 + i, kind)
                               ELSE GoodSig(16 + i)]
         e  == BuildEvent(h, it, ss) IN
-    /\ hash' = h /\ iter' = it /\ sigs' = ss
+    /\ hash' = h /\ iter' = it /\ sigs' = ss /\ fx' = (e.ok = "t")
     /\ env' = [env EXCEPT !.hcls = h.cls, !.icls = it.cls, !.m = m, !.mut = mut, !.at = p,
                           !.kind = kind]
     /\ Emit(e)
@@ -222,51 +224,130 @@ BuildBadSig  == \E m \in 1..MaxSigs, kind \in SigKinds : \E p \in 1..m, h \in {H
 \* one signature of the file / the iteration text in an unusual spelling
 BuildSpelledSig  == \E m \in 1..MaxSigs, sp \in SigSpells : \E p \in 1..m : DoBuild(H0, I0, m, "sigspell", p, sp)
 BuildSpelledIter == \E it \in FreeIters, m \in {0, 1} : DoBuild(H0, it, m, "iterspell", 0, "?")
-Build == pc = "build" /\ (BuildGood \/ BuildBadHash \/ BuildBadIter \/ BuildBadSig
+\* no authorization file yet: the signapp steps start from nothing
+StartAbsent == /\ pc' = "tool" /\ env' = [env EXCEPT !.mut = "absent", !.hcls = "lower", !.icls = "dec_mid"]
+               /\ UNCHANGED <<hash, iter, sigs, fx, obs, verdict, hist>>
+Build == pc = "build" /\ (StartAbsent \/ BuildGood \/ BuildBadHash \/ BuildBadIter \/ BuildBadSig
                           \/ BuildSpelledSig \/ BuildSpelledIter)
 
 \* authorize with a file the loader refuses: nothing is sent, the command fails
 RefusedAuthorize ==
     /\ pc = "refused" /\ Emit([k |-> "outcome", authorized |-> "f", exc |-> "ValueError"])
-    /\ pc' = "done" /\ UNCHANGED <<env, hash, iter, sigs>>
+    /\ pc' = "done" /\ UNCHANGED <<env, hash, iter, sigs, fx>>
 
 File(ss) == [hash |-> Lower(hash.s), iter |-> SysIter(iter), sigs |-> ss]
-\* signapp key / eth / manual on the file
-Tool ==
-    /\ pc = "tool"
-    /\ \E t \in Tools, sp \in SigSpells :
-         /\ (t # "none") => Len(sigs) < MaxSigs
-         \* deviations are single: a spelled file only meets none / key; a spelled manual signature
-         \* only the canonical base
-         /\ (env.mut # "none") => t \in {"none", "key"}
-         /\ (t = "manual_spell") => (hash = H0 /\ iter = I0)
+FileOf(h, it, ss) == [hash |-> Lower(h.s), iter |-> SysIter(it), sigs |-> ss]
+NoFile == [hash |-> <<>>, iter |-> 0, sigs |-> <<>>]
+
+(***************************************************************************)
+(* signapp steps on the same -o path.  Env chooses, per step, the          *)
+(* operation and the shape of the -a / -i arguments relative to what the   *)
+(* file holds (or, with no file, to app A / iteration 258):                *)
+(*   none | same | other_iter | other_app | respelled (0x..) | bad_iter    *)
+(* What the unchanged signapp does (modelled as it is):                    *)
+(*   key / eth, file exists : -a / -i are IGNORED (not even validated);    *)
+(*                            signs the digest of the file's own version   *)
+(*   key / eth, no file     : version from -a / -i (both needed, valid),   *)
+(*                            new file with that version + the signature   *)
+(*   message -o             : never reads the file; version from -a / -i;  *)
+(*                            (over)writes a file with NO signatures       *)
+(*   manual                 : needs the file; -a / -i never looked at      *)
+(***************************************************************************)
+ArgShapes == {"none", "same", "other_iter", "other_app", "respelled", "bad_iter"}
+HB == Txt("lower", <<99, 51, 100, 52>>)          \* c3d4: sha256 of the other app
+RECURSIVE HexT(_)
+HexT(n) == IF n < 16 THEN <<HexChar(n)>> ELSE Append(HexT(n \div 16), HexChar(n % 16))
+CurH == IF fx THEN Txt("lower", Lower(hash.s)) ELSE H0
+CurN == IF fx THEN SysIter(iter) ELSE 258
+ArgsOf(a) ==
+    LET other == IF CurN >= 65535 THEN CurN - 1 ELSE CurN + 1 IN
+    [n |-> IF a = "bad_iter" THEN 65536 ELSE IF a = "other_iter" THEN other ELSE CurN,
+     given |-> IF a = "none" THEN "f" ELSE "t",
+     h  |-> IF a = "other_app" THEN (IF CurH.s = HB.s THEN H0 ELSE HB) ELSE CurH,
+     it |-> It("arg", "str", 0,
+               CASE a = "other_iter" -> Dec(other)
+                 [] a = "respelled"  -> <<48, 120>> \o HexT(CurN)
+                 [] a = "bad_iter"   -> <<54, 53, 53, 51, 54>>
+                 [] OTHER            -> Dec(CurN))]
+\* sessions (several steps / arguments / no initial file) run on the canonical base only
+Canon == env.mut = "absent" \/ (env.mut = "none" /\ hash = H0 /\ iter = I0 /\ env.m <= 1)
+Manual(t) == t \in {"manual_ok", "manual_bad", "manual_spell"}
+
+DoStep(t, a, sp) ==
+    LET ar   == ArgsOf(a)
+        nst  == Len(env.steps)
+        via  == IF Manual(t) THEN "manual" ELSE t
+        gsig == IF t = "manual_ok" THEN GoodSig(96 + Len(sigs))
+                ELSE IF t = "manual_spell" THEN SpellSig(96 + 11 + Len(sigs), sp)
+                ELSE IF t = "manual_bad" THEN BadSig(96 + Len(sigs), "trail") ELSE <<>>
+        tsig == GoodSig(64 + 8 * nst + Len(sigs))
+        same == [ok |-> FALSE, h |-> hash, it |-> iter, ss |-> sigs, fx |-> fx, sig |-> <<>>]
+        res  == IF Manual(t) THEN
+                    IF fx /\ SysSigOK(gsig)
+                    THEN [same EXCEPT !.ok = TRUE, !.ss = Append(sigs, gsig), !.sig = gsig] ELSE same
+                ELSE IF t \in {"key", "eth"} /\ fx THEN
+                    [same EXCEPT !.ok = TRUE, !.ss = Append(sigs, tsig), !.sig = tsig]
+                ELSE IF ar.given = "f" \/ SysIter(ar.it) = -2 THEN same
+                ELSE [ok |-> TRUE, h |-> ar.h, it |-> ar.it, fx |-> TRUE,
+                      ss |-> IF t = "message" THEN <<>> ELSE <<tsig>>,
+                      sig |-> IF t = "message" THEN <<>> ELSE tsig]
+        text == IF res.fx THEN AuthMsg(PyFromHex(res.h.s), SysIter(res.it)) ELSE <<>>
+        \* key / eth sign keccak_256(encode_eth_message(msg)) of the version they hold: the loaded
+        \* file's, else the one built from the arguments -- in both cases the one the file names
+        signed == SysDigest(SysMsg(res.h.s, SysIter(res.it))) IN
+    /\ hash' = res.h /\ iter' = res.it /\ sigs' = res.ss /\ fx' = res.fx
+    /\ env' = [env EXCEPT !.tool = IF nst = 0 THEN t ELSE @,
+                          !.kind = IF t = "manual_spell" THEN sp ELSE @,
+                          !.steps = Append(@, [op |-> t, args |-> a, sp |-> IF t = "manual_spell" THEN sp ELSE "?",
+                                               file |-> IF fx THEN "exists" ELSE "absent",
+                                               \* for the concretiser: which app / iteration the arguments
+                                               \* name (258 = the base iteration), did the step succeed
+                                               ah |-> IF ar.h.s = HB.s THEN "B" ELSE "A", an |-> ar.n,
+                                               ok |-> res.ok])]
+    /\ Emit([k |-> "sign", via |-> via,
+             args |-> [given |-> ar.given, hash |-> ar.h.s,
+                       iter |-> [form |-> "str", val |-> 0, s |-> ar.it.s]],
+             given |-> gsig, ok |-> IF res.ok THEN "t" ELSE "f", sig |-> res.sig,
+             exists |-> IF res.fx THEN "t" ELSE "f",
+             file |-> IF res.fx THEN FileOf(res.h, res.it, res.ss) ELSE NoFile,
+             verifies |-> IF res.ok /\ t \in {"key", "eth"}
+                          THEN (IF signed = K256(text) THEN "t" ELSE "f") ELSE "na",
+             ver_of |-> text])
+    /\ UNCHANGED pc
+
+Step ==
+    /\ pc = "tool" /\ Len(env.steps) < MaxSteps
+    /\ \E t \in Tools \ {"none"}, a \in ArgShapes, sp \in SigSpells :
+         /\ Len(sigs) < MaxSigs
+         \* other bases and spelled files: one plain step, as before
+         /\ ~Canon => (a = "none" /\ Len(env.steps) = 0 /\ t # "message")
+         /\ (env.mut \notin {"none", "absent"}) => t = "key"
+         /\ (t = "manual_spell") => (fx /\ hash = H0 /\ iter = I0 /\ a = "none" /\ Len(env.steps) = 0)
          /\ (t # "manual_spell") => sp = CHOOSE x \in SigSpells : TRUE
-         /\ env' = [env EXCEPT !.tool = t, !.kind = IF t = "manual_spell" THEN sp ELSE @]
-         /\ IF t = "none" THEN UNCHANGED <<sigs, obs, verdict, hist>>
-            ELSE IF t \in {"key", "eth"} THEN
-                 LET s == GoodSig(64 + Len(sigs))
-                     d == SysDigest(SysMsg(hash.s, SysIter(iter))) IN
-                 /\ sigs' = Append(sigs, s)
-                 /\ Emit([k |-> "sign", via |-> t, given |-> <<>>, ok |-> "t", sig |-> s,
-                          file |-> File(Append(sigs, s)),
-                          verifies |-> IF d = obs.digest THEN "t" ELSE "f"])
-            ELSE LET s == IF t = "manual_ok" THEN GoodSig(96 + Len(sigs))
-                          ELSE IF t = "manual_spell" THEN SpellSig(96 + 11 + Len(sigs), sp)
-                          ELSE BadSig(96 + Len(sigs), "trail")
-                     ok == SysSigOK(s) IN
-                 /\ sigs' = IF ok THEN Append(sigs, s) ELSE sigs
-                 /\ Emit([k |-> "sign", via |-> "manual", given |-> s, ok |-> IF ok THEN "t" ELSE "f",
-                          sig |-> IF ok THEN s ELSE <<>>,
-                          file |-> File(IF ok THEN Append(sigs, s) ELSE sigs), verifies |-> "na"])
-    /\ pc' = "roundtrip" /\ UNCHANGED <<hash, iter>>
+         \* operations that never look at the arguments get fewer shapes
+         /\ (t = "manual_ok") => a \in {"none", "other_iter"}
+         /\ (t = "manual_bad") => a = "none"
+         /\ (t = "eth") => a \in {"none", "other_iter", "other_app"}
+         /\ (Len(env.steps) = 2) => (t = "key" /\ a \in {"none", "other_iter"})
+         /\ DoStep(t, a, sp)
+
+\* no (more) steps; with no file the authorize command has nothing to load
+StepsDone ==
+    /\ pc = "tool"
+    /\ env' = [env EXCEPT !.tool = IF Len(env.steps) = 0 THEN "none" ELSE @]
+    /\ pc' = IF fx THEN "roundtrip" ELSE "refused"
+    /\ UNCHANGED <<hash, iter, sigs, fx, obs, verdict, hist>>
+Tool == Step \/ StepsDone
 
 FileBytes(ss) == Lower(hash.s) \o <<58>> \o Dec(SysIter(iter))     \* stands for the JSON text
 RoundTrip ==
     /\ pc = "roundtrip"
     /\ Emit([k |-> "roundtrip", ok |-> "t", after |-> File(sigs), f1 |-> FileBytes(sigs),
              f2 |-> FileBytes(sigs)])
-    /\ pc' = "sigver" /\ UNCHANGED <<env, hash, iter, sigs>>
+    /\ pc' = "sigver" /\ UNCHANGED <<env, hash, iter, sigs, fx>>
 
+Session == env.mut = "absent" \/ Len(env.steps) >= 2
+           \/ \E i \in DOMAIN env.steps : env.steps[i].args # "none"
 Answer(op, res) == <<CLA, SIGNER_AUTH, op, res>>
 \* device: the iteration must be above the current one (0 never is); threshold reached at the
 \* k-th signature of the file, or never
@@ -276,6 +357,8 @@ SigVer ==
          /\ (SysIter(iter) = 0) => cur = "notbelow"
          /\ (k # NEVER) => k <= Len(sigs)
          /\ (cur = "notbelow") => k = NEVER
+         \* after a session only: threshold at the last signature, or never
+         /\ Session => (cur = "below" /\ k \in {Len(sigs), NEVER})
          /\ env' = [env EXCEPT !.cur = cur, !.k = k]
          /\ LET a == <<CLA, SIGNER_AUTH, 1>> \o PyFromHex(hash.s) \o
                      <<SysIter(iter) \div 256, SysIter(iter) % 256>> IN     \* to_bytes(2, 'big')
@@ -284,7 +367,7 @@ SigVer ==
                  /\ pc' = "sign"
             ELSE /\ Emit([k |-> "apdu", apdu |-> a, sw |-> 27139, resp |-> <<>>])     \* 0x6A03
                  /\ pc' = "finish"
-    /\ UNCHANGED <<hash, iter, sigs>>
+    /\ UNCHANGED <<hash, iter, sigs, fx>>
 
 SendSig ==
     /\ pc = "sign"
@@ -293,7 +376,7 @@ SendSig ==
        ELSE /\ Emit([k |-> "apdu", apdu |-> <<CLA, SIGNER_AUTH, 2>> \o PyFromHex(sigs[i]),
                      sw |-> SW_OK, resp |-> Answer(2, IF i = env.k THEN 2 ELSE 1)])
             /\ pc' = IF i = env.k THEN "finish" ELSE "sign"
-    /\ UNCHANGED <<env, hash, iter, sigs>>
+    /\ UNCHANGED <<env, hash, iter, sigs, fx>>
 
 Finish ==
     /\ pc = "finish"
@@ -301,7 +384,7 @@ Finish ==
     /\ Emit([k |-> "outcome", authorized |-> IF obs.done THEN "t" ELSE "f",
              exc |-> IF obs.done THEN "none"
                      ELSE IF obs.sigver = "err" THEN "HSM2DongleErrorResult" ELSE "HSM2DongleError"])
-    /\ pc' = "done" /\ UNCHANGED <<env, hash, iter, sigs>>
+    /\ pc' = "done" /\ UNCHANGED <<env, hash, iter, sigs, fx>>
 
 Next == Build \/ RefusedAuthorize \/ Tool \/ RoundTrip \/ SigVer \/ SendSig \/ Finish
 Spec == Init /\ [][Next]_vars
@@ -320,6 +403,7 @@ SignatureVerifies   == Clause("SignatureVerifies") /\ Clause("SignatureAdded")
 RoundTripP          == Clause("RoundTrip") /\ Clause("RoundTripStable")
 ExchangeShape       == Clause("SigVerFirst") /\ Clause("SignaturesInOrder")
                        /\ Clause("NothingAfterSuccess") /\ Clause("SentWithoutAuthorization")
+FileNamesItsVersion == Clause("FileNamesItsVersion")
 AuthorizedIff       == Clause("AuthorizedIff") /\ Clause("AllSentBeforeFailing")
 DocumentedFailure   == Clause("DocumentedFailure")
 \* model-level restatement of the exchange clause on Env's own k (not through obs)
@@ -334,5 +418,5 @@ NeverAuthorized == ~obs.done
 NeverRefused    == obs.st # "refused"
 NeverFailsShort == ~(Terminal /\ obs.st = "built" /\ ~obs.done /\ obs.sigver = "ok")
 
-View == <<pc, env, hash, iter, sigs, obs, verdict>>
+View == <<pc, env, hash, iter, sigs, fx, obs, verdict>>
 =============================================================================
